@@ -536,6 +536,20 @@ def gen_macros(path):
     lines.append('def shortUses : List (String × String) := [')
     lines.append('  ' + ',\n  '.join('(%s, %s)' % (lean_string(a), lean_string(b)) for a, b in uses))
     lines.append(']')
+    # (f) the call-count clause each ALLOW_/FORBID_ statement macro injects, for every spelling (C++14 `_`, variadic `_F` / `_T`)
+    lines.append('')
+    lines.append('/-- (statement macro, the TIMES clause its replacement list appends: "inf" = INFINITY_TIMES(), "0" = TIMES(0)). -/')
+    lines.append('def stmtTimes : List (String × String) := [')
+    st = []
+    for name in sorted(bodies):
+        if not re.match(r'^TROMPELOEIL_(NAMED_)?(ALLOW|FORBID)_CALL(_|_F|_T)$', name):
+            continue
+        for params, body in bodies[name]:
+            inf = '.TROMPELOEIL_INFINITY_TIMES()' in body
+            zero = re.search(r'\.TROMPELOEIL_TIMES\(\s*0\s*\)', body) is not None
+            st.append('(%s, %s)' % (lean_string(name), lean_string('inf' if inf and not zero else '0' if zero and not inf else 'other')))
+    lines.append('  ' + ',\n  '.join(st))
+    lines.append(']')
     lines += ['', 'end Tromp.Gen', '']
     text = '\n'.join(lines)
     if not os.path.exists(path) or open(path).read() != text:
